@@ -104,6 +104,13 @@ def wellformed(res, textlen, pods):
         return out
     # accessors
     try:
+        for t_ in ([res] if kind == "T" else [e for e in (res.t_from, res.t_to) if e is not None] if kind == "I" else []):
+            for acc_name in ("start", "end"):
+                b = getattr(t_, acc_name)
+                if not (0 <= b.hour <= 23 and 0 <= (b.minute if b.minute is not None else 0) <= 59):
+                    out.append(("accessor-yields-impossible-time", "{}.{} = {!r}".format(t_, acc_name, b)))
+        if out:
+            return out
         if kind == "T":
             res.start, res.end
             if v[1] is not None and v[2] is not None and v[3] is not None:
@@ -202,7 +209,9 @@ def _shard(arg):
     return acc
 
 
-BOUNDARY = ["31.04.2020", "31.04.", "30.2.", "29.02.2019", "29.2.", "12.02.2020 - 31.", "31.6.2020 8:00",
+BOUNDARY = ["late last", "early first", "tomorrow late last", "5.5.2020 late late last", "spät letzter", "very late last", "29.02.1900",
+            "29 feb 1900", "28.02.1900 - 29.02.1900", "29.02.2000", "5.5.2020 12:30-0:15", "tomorrow 12:45 to 0:10", "tomorrow 12:30 to midnight",
+            "31.04.2020", "31.04.", "30.2.", "29.02.2019", "29.2.", "12.02.2020 - 31.", "31.6.2020 8:00",
             "15.-31.6.2020", "30.2. - 5.3.2020", "february 30 2020", "feb 30", "31st of june 2020",
             "monday 31.04.", "31.11. morning", "very early very early morning", "late late late evening",
             "sehr früh sehr früh morgens", "8pm", "8:00", "22-2", "5-5", "9-5", "23:30 - 3:35",
@@ -266,11 +275,28 @@ def _grammar_shard(arg):
     return acc
 
 
+def _range_grid(arg):
+    """clock ranges over the boundary hours x minute orders x anchors (the corners of the 12h / next-day wrap)"""
+    pid, hours = arg
+    pods = _pod_hours()
+    acc = core.Acc(pid)
+    for sh in hours:
+        for eh in (0, 1, 11, 12, 13, 23):
+            for smi, emi in ((0, 0), (30, 15), (15, 30)):
+                for anchor in ("5.5.2020 ", "tomorrow ", "31.12.2021 ", ""):
+                    for j in ("-", " to ", " bis "):
+                        text = "{}{}:{:02d}{}{}:{:02d}".format(anchor, sh, smi, j, eh, emi)
+                        for ts in (dt.datetime(2020, 2, 29, 23, 59, 59), dt.datetime(2021, 3, 10, 11, 20)):
+                            run_case(acc, text, ts, True, 10, "range-grid", pods)
+    return acc
+
+
 def run(ctx):
     n = 200000 if ctx.thorough else 8000
     shards = 32 if ctx.thorough else 16
     acc = core.pmap_acc(ctx.pid, _shard, [(ctx.pid, ctx.seed, n // shards, i) for i in range(shards)])
     acc.merge(core.pmap_acc(ctx.pid, _boundary, [(ctx.pid, p) for p in core.chunks(BOUNDARY, 16)]))
+    acc.merge(core.pmap_acc(ctx.pid, _range_grid, [(ctx.pid, [h]) for h in (0, 1, 11, 12, 13, 23)]))
     gt = grammar_texts()
     if not ctx.thorough:
         gt = [t for i, t in enumerate(gt) if i % 8 == ctx.seed % 8]
